@@ -612,7 +612,6 @@ func checkSetEqual(c *Ctx, p *core.Prog, fn *ssa.Function, typ string) {
 	c.R.Check(bad == "", "R20.4", key, p.Pos(fn.Pos()), fmt.Sprintf("%d true return(s): sizes compared equal before the containment loop, or containment tested in both directions", n), bad)
 }
 
-
 // checkHeapLengths: R20.5. Along every path from the entry of the method to a return, the length of the slice that the
 // items field holds at the return is the length at entry plus delta (Push +1, Pop -1, Swap 0). Lengths are evaluated as
 // linear forms: len(field at entry) = n, x[a:b] -> b-a, append(x, e1..ek) -> len(x)+k, append(x, y...) -> len(x)+len(y),
@@ -647,8 +646,8 @@ func checkHeapLengths(c *Ctx, p *core.Prog, heapT *types.Named, itemsField strin
 				nPaths++
 				n := core.Lin{Coef: map[string]int64{"n": 1}}
 				cur, curOK := n, true
-				lens := map[ssa.Value]core.Lin{}  // slice value -> its length
-				ints := map[ssa.Value]core.Lin{}  // integer value -> linear form
+				lens := map[ssa.Value]core.Lin{} // slice value -> its length
+				ints := map[ssa.Value]core.Lin{} // integer value -> linear form
 				var intOf func(v ssa.Value) (core.Lin, bool)
 				var lenOf func(v ssa.Value) (core.Lin, bool)
 				intOf = func(v ssa.Value) (core.Lin, bool) {
@@ -761,7 +760,6 @@ func checkHeapLengths(c *Ctx, p *core.Prog, heapT *types.Named, itemsField strin
 	}
 	c.R.RequireMin("R20.5", "entry-to-return paths of Push/Pop/Swap evaluated", nPaths, 3)
 }
-
 
 // checkUniformMutator: R20.10. Insert and Delete treat every element alike: in the loop over the elements given, what is
 // done with an element (the map update, the delete, a call that is handed the element) does not stand behind a test inside
@@ -893,7 +891,6 @@ func checkUnionGuard(c *Ctx, p *core.Prog, fn *ssa.Function, typ string) {
 	}
 	c.R.RequireMin("R20.11", typ+".Union: loops over the argument's elements", n, 1)
 }
-
 
 // ownHeap: v is the heap of the queue recv - the address of its heap field, the queue itself seen as its heap type
 // (type heapAdapter Queue), or what a helper of the package makes of the queue in one of these ways.
